@@ -59,7 +59,9 @@ def run(ctx):
     ctx.coverage["rule"] = ("layered DAGs of 2-6 targets with no-cache tags at random positions (p=0.3); histories mixing edits, "
                             "`grog taint` of one label or //..., builds with random selections, --enable-cache=false builds; families: "
                             + ", ".join("%s%s x%d" % (f, "(minimal)" if kw.get("minimal") else "", n) for f, n, kw in fams) +
-                            " + output-swap of a no-cache dependency; non-trivial = distinct history with >=2 builds, one executing and one with a hit")
+                            " + output-swap of a no-cache dependency; taint patterns also cover a target together with one of its dependencies or a whole "
+                            "package; taintdis = cache-disabled build while tainted; outless = 40% targets without outputs (also no-cache) under minimal; "
+                            "tool = a no-cache target whose only output is a script that is also its input, with a cached dependant; non-trivial = distinct history with >=2 builds, one executing and one with a hit")
     recs = H.run_both(ctx, hists, "c13")
     if recs is None:
         return
